@@ -1,9 +1,29 @@
 import os, sys
 sys.path.insert(0, os.path.dirname(os.path.dirname(os.path.abspath(__file__))))
-from checks import common, pfamily, pscen
+from checks import common, pfamily, pscen, pmodel
+from engine import tlc
 
 
 def body(c):
+    # 1. the implementation-shaped model, model-checked
+    sens = []
+    for m in pscen.models("C16", c.quick):
+        name, must_hold, live, over = m[:4]
+        invs = m[4] if len(m) > 4 else pmodel.INVS
+        r = c.model_check("ParallelDesign[%s]" % name, "ParallelDesign", pmodel.cfg("C16_" + name, invariants=invs, liveness=live, **over),
+                          must_hold=must_hold, workers=16, timeout=1500)
+        if not must_hold:
+            if r.ok:
+                raise tlc.TLCError("model lost its sensitivity: configuration %s (a repair switched off) no longer yields a counterexample" % name)
+            sens.append("%s -> %s %s" % (name, r.violated[0], r.violated[1]))
+    c.extra["model_sensitivity"] = sens
+    # 2. code -> design model (conformance, drift) and design model -> code (replay of simulated behaviours)
+    conf, gcfgs = pscen.conformance("C16", c.quick)
+    pfamily.design_conformance(c, conf, seed=c.seed)
+    tg, mg = pfamily.model_guided(c, gcfgs, num=(25 if c.quick else 300), seed=c.seed)
+    pfamily.account(c, tg, mg)
+    pfamily.validate(c, tg, mg, "C16", label="L1-model-guided")
+    # 3. exploration of the real code, judged by the abstract spec
     S = pscen.c16(c.quick)
     traces, meta = pfamily.explore(S, seed=c.seed, workers=12)
     pfamily.account(c, traces, meta)
